@@ -1304,3 +1304,154 @@ pub fn reset_count(d: &DecoderState) -> usize {
 pub fn unpacked_size_of(d: &DecoderState) -> Option<u64> {
     d.unpacked_size
 }
+
+// ---------------------------------------------------------------------------------------
+// C14: reset_state(p) leaves the state DecoderState::new(p) would create
+// ---------------------------------------------------------------------------------------
+fn any_cell_value(d: &DecoderState, table: u8, idx: usize) -> u16 {
+    // value of the cell with logical name (table, idx); idx assumed in range
+    match table {
+        T_IS_MATCH => d.is_match[idx],
+        T_IS_REP => d.is_rep[idx],
+        T_IS_REP_G0 => d.is_rep_g0[idx],
+        T_IS_REP_G1 => d.is_rep_g1[idx],
+        T_IS_REP_G2 => d.is_rep_g2[idx],
+        T_IS_REP0_LONG => d.is_rep_0long[idx],
+        T_LIT => vec2d_cell(&d.literal_probs, idx),
+        T_LEN_CHOICE => crate::decode::rangecoder::verif_h::len_cell(if idx == 0 { &d.len_decoder } else { &d.rep_len_decoder }, 0, 0, 0),
+        T_LEN_CHOICE2 => crate::decode::rangecoder::verif_h::len_cell(if idx == 0 { &d.len_decoder } else { &d.rep_len_decoder }, 1, 0, 0),
+        T_LEN_LOW => crate::decode::rangecoder::verif_h::len_cell(if idx / 128 == 0 { &d.len_decoder } else { &d.rep_len_decoder }, 2, (idx % 128) / 8, idx % 8),
+        T_LEN_MID => crate::decode::rangecoder::verif_h::len_cell(if idx / 128 == 0 { &d.len_decoder } else { &d.rep_len_decoder }, 3, (idx % 128) / 8, idx % 8),
+        T_LEN_HIGH => crate::decode::rangecoder::verif_h::len_cell(if idx / 256 == 0 { &d.len_decoder } else { &d.rep_len_decoder }, 4, 0, idx % 256),
+        T_POS_SLOT => crate::decode::rangecoder::verif_h::bt_get(&d.pos_slot_decoder[idx / 64], idx % 64),
+        T_POS_DEC => d.pos_decoders[idx],
+        _ => crate::decode::rangecoder::verif_h::bt_get(&d.align_decoder, idx % 16),
+    }
+}
+
+fn set_cell_value(d: &mut DecoderState, table: u8, idx: usize, v: u16) {
+    match table {
+        T_IS_MATCH => d.is_match[idx] = v,
+        T_IS_REP => d.is_rep[idx] = v,
+        T_IS_REP_G0 => d.is_rep_g0[idx] = v,
+        T_IS_REP_G1 => d.is_rep_g1[idx] = v,
+        T_IS_REP_G2 => d.is_rep_g2[idx] = v,
+        T_IS_REP0_LONG => d.is_rep_0long[idx] = v,
+        T_LIT => vec2d_set(&mut d.literal_probs, idx, v),
+        T_LEN_CHOICE => crate::decode::rangecoder::verif_h::len_cell_set(if idx == 0 { &mut d.len_decoder } else { &mut d.rep_len_decoder }, 0, 0, 0, v),
+        T_LEN_CHOICE2 => crate::decode::rangecoder::verif_h::len_cell_set(if idx == 0 { &mut d.len_decoder } else { &mut d.rep_len_decoder }, 1, 0, 0, v),
+        T_LEN_LOW => crate::decode::rangecoder::verif_h::len_cell_set(if idx / 128 == 0 { &mut d.len_decoder } else { &mut d.rep_len_decoder }, 2, (idx % 128) / 8, idx % 8, v),
+        T_LEN_MID => crate::decode::rangecoder::verif_h::len_cell_set(if idx / 128 == 0 { &mut d.len_decoder } else { &mut d.rep_len_decoder }, 3, (idx % 128) / 8, idx % 8, v),
+        T_LEN_HIGH => crate::decode::rangecoder::verif_h::len_cell_set(if idx / 256 == 0 { &mut d.len_decoder } else { &mut d.rep_len_decoder }, 4, 0, idx % 256, v),
+        T_POS_SLOT => crate::decode::rangecoder::verif_h::bt_set(&mut d.pos_slot_decoder[idx / 64], idx % 64, v),
+        T_POS_DEC => d.pos_decoders[idx] = v,
+        _ => crate::decode::rangecoder::verif_h::bt_set(&mut d.align_decoder, idx % 16, v),
+    }
+}
+
+/// number of cells of each logical table (literal table passed separately)
+fn table_len(table: u8, lit_cells: usize) -> usize {
+    match table {
+        T_IS_MATCH | T_IS_REP0_LONG => 192,
+        T_IS_REP | T_IS_REP_G0 | T_IS_REP_G1 | T_IS_REP_G2 => 12,
+        T_LIT => lit_cells,
+        T_LEN_CHOICE | T_LEN_CHOICE2 => 2,
+        T_LEN_LOW | T_LEN_MID => 256,
+        T_LEN_HIGH => 512,
+        T_POS_SLOT => 256,
+        T_POS_DEC => 115,
+        _ => 16,
+    }
+}
+
+/// MODE 0: DecoderState::new(p, size) ; MODE 1: dirty state (A = old lc+lp) then reset_state(p)
+/// with p.lc + p.lp == B. One universally quantified cell of one universally quantified table
+/// is made dirty before and inspected after.
+fn reset_equiv<const MODE: usize, const A: usize, const LC: u32, const LP: u32, const CELLS_A: usize>() {
+    let mut t = Tape::<64>::new();
+    // lc and lp are concrete per instance (a symbolic lc+lp makes the table length, hence the
+    // fill loop's trip count, symbolic for the symbolic-execution engine); pb is symbolic
+    let lc = LC;
+    let lp = LP;
+    let pb = (t.u8() as u32) % 5;
+    let size_some = t.bool();
+    let size_v = t.u64();
+    let size = if size_some { Some(size_v) } else { None };
+    let table = 1 + t.u8() % 15;
+    let idx = t.usize();
+    let dirty = t.u16();
+    let table2 = 1 + t.u8() % 15;
+    let idx2 = t.usize();
+    let p = LzmaProperties { lc, lp, pb };
+    let cells_b = 0x300usize << (LC + LP);
+    let d = if MODE == 0 {
+        DecoderState::new(p, size)
+    } else {
+        let old = LzmaProperties { lc: A as u32, lp: 0, pb: (t.u8() as u32) % 5 };
+        let mut d = light_state::<CELLS_A>(old, size);
+        // the whole literal table is dirty (0x0123 everywhere: an array-repeat
+        // expression, no loop); of the other tables one quantified cell is dirty
+        d.literal_probs = mk_vec2d(Box::new([0x0123u16; CELLS_A]) as Box<[u16]>, 0x300);
+        assume(table != T_LIT);
+        assume(idx < table_len(table, CELLS_A));
+        set_cell_value(&mut d, table, idx, dirty);
+        d.state = (t.u8() % 12) as usize;
+        d.rep = [t.u32() as usize, t.u32() as usize, t.u32() as usize, t.u32() as usize];
+        d.partial_input_buf.set_position(0);
+        d.reset_state(p);
+        d
+    };
+    vassert!(d.state == 0, "reset/new: state 0");
+    vassert!(d.rep[0] == 0 && d.rep[1] == 0 && d.rep[2] == 0 && d.rep[3] == 0, "reset/new: reps 0");
+    vassert!(d.lzma_props.lc == lc && d.lzma_props.lp == lp && d.lzma_props.pb == pb, "reset/new: properties installed");
+    vassert!(d.unpacked_size == size, "reset/new: unpacked size as given (kept by reset_state)");
+    vassert!(vec2d_len(&d.literal_probs) == cells_b && vec2d_cols(&d.literal_probs) == 0x300, "reset/new: literal table has 0x300 << (lc+lp) cells");
+    vassert!(d.partial_input_buf.position() == 0, "reset/new: no carried-over input");
+    if idx2 < table_len(table2, cells_b) {
+        vassert!(any_cell_value(&d, table2, idx2) == 0x400, "reset/new: every probability cell is 0x400");
+    }
+    vcover!(table2 == T_LIT && idx2 == cells_b - 1, "last_literal_cell");
+    vcover!(table2 == T_LEN_HIGH && idx2 == 511, "rep_len_high_last");
+    vcover!(true, "end_reached");
+    forget(d);
+}
+
+//@ harness props=C14,C01,C02 tier=quick unwind=1540 mem_gb=10 timeout=1500
+//@ bound: DecoderState::new(p, size) for every p with lc+lp = 0 (any pb): every cell of every table inspected at a universally quantified index
+#[cfg_attr(kani, kani::proof)]
+#[cfg_attr(kani, kani::stub(std::fmt::format, crate::verif_common::stub_format))]
+pub fn new_state_lclp0() {
+    reset_equiv::<0, 0, 0, 0, 0>()
+}
+
+//@ harness props=C14,C02 tier=quick unwind=8 unwindset=spec_fill:770,extend_with:770 mem_gb=10 timeout=1500
+//@ bound: reset_state(p) with lc+lp = 0 on a dirty lc+lp = 0 state (fill branch): any dirty cell, any state/rep, every cell inspected at a quantified index
+#[cfg_attr(kani, kani::proof)]
+#[cfg_attr(kani, kani::stub(std::fmt::format, crate::verif_common::stub_format))]
+pub fn reset_state_fill_0_0() {
+    reset_equiv::<1, 0, 0, 0, 768>()
+}
+
+//@ harness props=C14,C02 tier=quick unwind=8 unwindset=spec_fill:1540,extend_with:1540 mem_gb=10 timeout=1500
+//@ bound: reset_state(p) with lc=0 lp=1 on a dirty lc+lp = 0 state (reallocate branch)
+#[cfg_attr(kani, kani::proof)]
+#[cfg_attr(kani, kani::stub(std::fmt::format, crate::verif_common::stub_format))]
+pub fn reset_state_realloc_0_1() {
+    reset_equiv::<1, 0, 0, 1, 768>()
+}
+
+//@ harness props=C14 tier=thorough unwind=8 unwindset=spec_fill:1540,extend_with:1540 mem_gb=12 timeout=2400
+//@ bound: reset_state(p) with lc+lp = 0 on a dirty lc+lp = 1 state (reallocate to a smaller table)
+#[cfg_attr(kani, kani::proof)]
+#[cfg_attr(kani, kani::stub(std::fmt::format, crate::verif_common::stub_format))]
+pub fn reset_state_realloc_1_0() {
+    reset_equiv::<1, 1, 0, 0, 1536>()
+}
+
+//@ harness props=C14 tier=thorough unwind=8 unwindset=spec_fill:1540,extend_with:1540 mem_gb=12 timeout=2400
+//@ bound: reset_state(p) with lc+lp = 1 on a dirty lc+lp = 1 state (fill branch, 1536 cells)
+#[cfg_attr(kani, kani::proof)]
+#[cfg_attr(kani, kani::stub(std::fmt::format, crate::verif_common::stub_format))]
+pub fn reset_state_fill_1_1() {
+    reset_equiv::<1, 1, 1, 0, 1536>()
+}
